@@ -175,8 +175,23 @@ def top_type(c):
     return c.split(":", 1)[0]
 
 
+_ASM = "<Parent: id=asm1, type=assembly, strand=None, location=None, sequence=None, parent=None>"
+
+
+def _is_asm(c):
+    """canonical form of the recipes' assembly level (`Recipe._assembly`)"""
+    return isinstance(c, dict) and json.dumps(c, sort_keys=True).count("asm1") >= 1 and "str:asm1" in json.dumps(c)
+
+
+def _undepth(s):
+    return s.replace("parent=" + _ASM, "parent=None")
+
+
 def diff(a, b, path=""):
     """paths at which two canonical forms differ"""
+    # the ONLY difference: one side has the recipes' assembly level above a level, the other has nothing there
+    if path.endswith("/parent") and ((a == "None:" and _is_asm(b)) or (b == "None:" and _is_asm(a))):
+        return [path + "#depth"]
     if isinstance(a, dict) and isinstance(b, dict):
         if set(a) != set(b):
             return [path + "/keys"]
@@ -198,6 +213,8 @@ def diff(a, b, path=""):
             return [path + "#spelling"]
         if a.startswith("str:") and b.startswith("str:") and _unspell(a) == _unspell(b):
             return [path + "#spelling"]       # a repr()/str() that prints a sequence type
+        if a.startswith("str:") and b.startswith("str:") and _undepth(a) == _undepth(b):
+            return [path + "#depth"]          # a repr()/str()/summary() that prints the hierarchy
         return [path]
     return [path]
 
@@ -225,6 +242,8 @@ def classify(got, ref):
         return None
     if all(p.endswith("#spelling") for p in ds):
         return "val(seqtype-spelling)"
+    if all(p.endswith("#depth") for p in ds):
+        return "val(ancestor-depth)"
     tg, tr = top_type(got), top_type(ref)
     if tg == "exc":
         return f"exc({got.split(':', 1)[1]})"
@@ -360,6 +379,7 @@ def _tables(recipe, obj):
         t["relative_interval_to_parent_location:1,3"] = \
             lambda o, c: o.relative_interval_to_parent_location(1, 3, Strand.PLUS)
         t["scan_windows:3,2"] = lambda o, c: o.scan_windows(3, 2)
+        t["has_ancestor_of_type:assembly"] = lambda o, c: o.has_ancestor_of_type("assembly")
         t["has_ancestor_of_type:chromosome"] = lambda o, c: o.has_ancestor_of_type("chromosome")
         t["has_ancestor_of_type:CHROMOSOME"] = lambda o, c: o.has_ancestor_of_type(SequenceType.CHROMOSOME)
         t["first_ancestor_of_type:chromosome"] = lambda o, c: o.first_ancestor_of_type("chromosome")
@@ -379,6 +399,7 @@ def _tables(recipe, obj):
         t["first_ancestor_of_type:chromosome"] = lambda o, c: o.first_ancestor_of_type("chromosome")
         t["first_ancestor_of_type:CHROMOSOME:noself"] = \
             lambda o, c: o.first_ancestor_of_type(SequenceType.CHROMOSOME, include_self=False)
+        t["has_ancestor_of_type:assembly"] = lambda o, c: o.has_ancestor_of_type("assembly")
         t["has_ancestor_of_type:sequence_chunk"] = lambda o, c: o.has_ancestor_of_type("sequence_chunk")
         t["has_ancestor_of_type:CHROMOSOME"] = lambda o, c: o.has_ancestor_of_type(SequenceType.CHROMOSOME)
         t["reset_location:loc"] = lambda o, c: o.reset_location(c.operands["loc"])
@@ -392,6 +413,7 @@ def _tables(recipe, obj):
         t["reverse_complement:new"] = lambda o, c: o.reverse_complement(new_id="rc")
         t["to_fasta:10"] = lambda o, c: o.to_fasta(num_chars=10)
         t["first_ancestor_of_type:chromosome"] = lambda o, c: o.first_ancestor_of_type("chromosome")
+        t["has_ancestor_of_type:assembly"] = lambda o, c: o.has_ancestor_of_type("assembly")
         t["has_ancestor_of_type:chromosome"] = lambda o, c: o.has_ancestor_of_type("chromosome")
         t["has_ancestor_of_type:CHROMOSOME:noself"] = \
             lambda o, c: o.has_ancestor_of_type(SequenceType.CHROMOSOME, include_self=False)
@@ -406,6 +428,7 @@ def _tables(recipe, obj):
         t["from_dict:roundtrip"] = lambda o, c: type(o).from_dict(o.to_dict(), o._parent_or_seq_chunk_parent)
         t["from_dict:noparent"] = lambda o, c: type(o).from_dict(o.to_dict())
         t["liftover:chunk2"] = lambda o, c: o.liftover_to_parent_or_seq_chunk_parent(c.chunk2())
+        t["has_ancestor_of_type:assembly"] = lambda o, c: o.has_ancestor_of_type("assembly")
         t["has_ancestor_of_type:chromosome"] = lambda o, c: o.has_ancestor_of_type("chromosome")
         t["has_ancestor_of_type:SEQUENCE_CHUNK"] = lambda o, c: o.has_ancestor_of_type(SequenceType.SEQUENCE_CHUNK)
         t["first_ancestor_of_type:chromosome"] = lambda o, c: o.first_ancestor_of_type("chromosome")
@@ -662,6 +685,8 @@ EXPORT_BASES = {"export_qualifiers", "to_gff", "to_genbank"}
 def family(tok, what):
     """Purely syntactic grouping of a digest item, so that findings/C10.json can match narrowly:
       seqtype-spelling  the only difference is str vs SequenceType of a sequence_type     (open finding F-C10c)
+      ancestor-depth    the only difference: the recipes' assembly level is present / absent above a level of the
+                        object's own hierarchy                                              (open finding F-C10h)
       qualifier-alias   a GFF3/GenBank/qualifier export changed qualifier sets of the object
                         (shape of the repaired defect F-C10b — NOT matched by any finding any more)
       cds-path          a CDS-sequence accessor answered with the wrong type / error
@@ -670,6 +695,8 @@ def family(tok, what):
     b = base_name(tok)
     if what in SPELL_WHATS:
         return "seqtype-spelling"
+    if what == "val(ancestor-depth)":
+        return "ancestor-depth"
     if what == "mut(qualifiers)" and b in EXPORT_BASES:
         return "qualifier-alias"
     if b in CDS_SEQ_ACCESSORS and (what in CDS_WHATS or (b == "scan_codons" and what == "val(len)")):
